@@ -164,6 +164,28 @@ func (e *Exec) havoc(st *State, vars map[*types.Var]bool, fields map[string]type
 		fs = append(fs, k)
 	}
 	sort.Strings(fs)
+	// ghost state of buffers and encoders is loop-carried too
+	if len(st.bufs) > 0 {
+		var hs []string
+		for h := range st.bufs {
+			hs = append(hs, h)
+		}
+		sort.Strings(hs)
+		for _, h := range hs {
+			st.bufs[h] = e.fresh(st, "content", "String")
+		}
+		var es []string
+		for h := range st.encs {
+			es = append(es, h)
+		}
+		sort.Strings(es)
+		for _, h := range es {
+			en := st.encs[h]
+			cnt := e.fresh(st, "encCount", "Int")
+			st.pc = append(st.pc, "(>= "+cnt+" 0)")
+			st.encs[h] = [3]string{en[0], en[1], cnt}
+		}
+	}
 	ownW := e.w.ownWrites(e.fi)
 	for _, k := range fs {
 		e.heapArr(st, k, fields[k])
